@@ -474,7 +474,7 @@ impl Response {
     pub fn _parse_http_response_header_string(header_string: &str) -> Header {
         let header_parts: Vec<&str> = header_string.split(Header::NAME_VALUE_SEPARATOR).collect();
         let header_name = header_parts[0].to_string();
-        let raw_header_value = header_parts[1].to_string();
+        let raw_header_value = header_parts.get(1).unwrap_or(&"").to_string();
         let header_value = StringExt::truncate_new_line_carriage_return(&raw_header_value);
 
 
@@ -853,7 +853,12 @@ impl Response {
                 }
                 let header = boxed_header.unwrap();
                 if header.name == Header::_CONTENT_LENGTH {
-                    content_length = header.value.parse().unwrap();
+                    let boxed_content_length = header.value.trim().parse();
+                    if boxed_content_length.is_err() {
+                        let message = format!("unable to parse {} header value: {}", Header::_CONTENT_LENGTH, header.value);
+                        return Err(message);
+                    }
+                    content_length = boxed_content_length.unwrap();
                 }
                 response.headers.push(header);
             }
